@@ -468,3 +468,5 @@ M("c16-memo-ignores-model", "C16", J, "        if self._sample is None or self._
 M("c16-memo-key-not-stored", "C16", J, "            self._sample_model = model_state\n", "", rules=["C16.cache"], what="the key is compared but never updated: a new sample on every call ... and never for the right model")
 M("c16-twin-memo-str", "C16", J, "        model_state = repr(self.model)\n", "        model_state = str(self.model)\n", expect="pass")
 M("c16-inverse-cancellation", "C16", VT, "    hs = 4 * d**2 * s / (root + factor)\n", "    hs = (root - factor) / (4 * s)\n", rules=["C16.closed"], what="original defect (third audit C16#4)")
+M("c05-twin-generic-early-exit", "C05", D, "        args_with_default = list(self.parameters.values())\n", "        args_with_default = list(self.parameters.values())\n        if not args and not kwargs:\n            return args_with_default\n", expect="pass")
+M("c05-generic-early-exit-truthy", "C05", D, "        args_with_default = list(self.parameters.values())\n", "        args_with_default = list(self.parameters.values())\n        if not (any(args) or kwargs):\n            return args_with_default\n", rules=["C05.generic"], what="seed C05-r4b: a positional override 0 is skipped")
